@@ -75,7 +75,26 @@ func asE(s string, arity int) ([]int64, bool) {
 	}
 	return f, true
 }
-func near(z int64) bool { return -1 <= z && z <= 36 }
+func near(z int64) bool { return -1000 <= z && z <= 36 }
+
+// at a far-away target zoom only members whose own zoom fields read as huge (overflow spellings) are harmless
+func farOK(ms [][]int64, zs ...int64) bool {
+	far := false
+	for _, z := range zs {
+		if !near(z) {
+			far = true
+		}
+	}
+	if !far {
+		return true
+	}
+	for _, f := range ms {
+		if f[0] < 1<<40 || f[3] < 1<<40 {
+			return false
+		}
+	}
+	return true
+}
 func pw(base float64, d int64) float64 {
 	if d <= 0 {
 		return 1
@@ -138,7 +157,7 @@ func costChange(ids []string, arity int, H, V int64) float64 {
 	if len(ms) == 0 {
 		return 0
 	}
-	if !near(H) || !near(V) {
+	if !farOK(ms, H, V) {
 		return math.Inf(1)
 	}
 	c := 0.0
@@ -155,7 +174,7 @@ func costMerge(ids []string, arity int, H, V int64) float64 {
 	if len(ms) == 0 {
 		return 0
 	}
-	if !near(H) || !near(V) {
+	if !farOK(ms, H, V) {
 		return math.Inf(1)
 	}
 	var mh, mv int64
@@ -744,7 +763,7 @@ func protect(name string, a []w.Val) (res w.Val) {
 
 // ---------------------------------------------------------------------------------------------------------------- generators
 
-var extraMalformed = []string{"1", "1/2/3/4/5/6", "1/2/3/4/5/6/7", "0x10/0/0/1/0", "1/0x0/0/1/0", "1/0/0/1/0/", "/1/0/0/1/0", "1/0/0/1/0\n", "1/0/0/1/\x00",
+var extraMalformed = []string{strings.Repeat("1/", 40) + "1", strings.Repeat("9", 70) + "/0/0/1/0", "1/0/0/1/" + strings.Repeat("0", 200) + "x", strings.Repeat("/", 64), "1/0/0/1/0/" + strings.Repeat("7/", 20), "1", "1/2/3/4/5/6", "1/2/3/4/5/6/7", "0x10/0/0/1/0", "1/0x0/0/1/0", "1/0/0/1/0/", "/1/0/0/1/0", "1/0/0/1/0\n", "1/0/0/1/\x00",
 	"1/0/0/1/0\x00", "1/0/ 0/1/0", "+/0/0/1/0", "1/0/0/1/-", "99999999999999999999/0/0/1/0", "1/0/0/99999999999999999999/0", "1/0/0/1/9223372036854775808",
 	"1/0/0/1/-9223372036854775809", "１/０/０/１/０", "1/0/0/1/०", "1,0,0,1,0", "1/0/0/1", "1/0/0", "a/b/c/d/e", "a/b/c/d", " ", "1/0/0/1/0 ", "1/0/0//0",
 	"1/b/0/0", "1/0/0/b", "b/0/0/0", "1/0/b/0", "1/0/0/0x1", "1/0/0/", "/0/0/0", "1/0/0/0/", "1/0/0/0\n", "1/+/0/0", "1/0/0/99999999999999999999", "1 /0/0/0"}
@@ -849,10 +868,47 @@ func malformedFit(g *Gen, arity int, H, V int64, one func(string) float64, tags 
 }
 
 func validID(g *Gen, arity int, h, v int64) string {
+	var id string
 	if arity == 4 {
-		return SID(h, g.VIndex(h), g.HIndex(h), g.HIndex(h))
+		id = SID(h, g.VIndex(h), g.HIndex(h), g.HIndex(h))
+	} else {
+		id = g.ValidEIDAt(h, v)
 	}
-	return g.ValidEIDAt(h, v)
+	if g.Chance(0.1) { // other spellings strconv accepts: sign, leading zeros, -0
+		fs := strings.Split(id, "/")
+		for i, f := range fs {
+			switch g.Intn(4) {
+			case 0:
+				if !strings.HasPrefix(f, "-") {
+					fs[i] = "+" + f
+				}
+			case 1:
+				if strings.HasPrefix(f, "-") {
+					fs[i] = "-00" + f[1:]
+				} else {
+					fs[i] = "00" + f
+				}
+			case 2:
+				if f == "0" {
+					fs[i] = "-0"
+				}
+			}
+		}
+		id = strings.Join(fs, "/")
+	}
+	return id
+}
+
+// a member whose zoom fields overflow int64 (strconv leaves MaxInt64 next to the error): nothing could be enumerated from it
+// even by a tree without validation, so it may accompany any zoom argument
+const overflowE = "99999999999999999999/0/0/99999999999999999999/0"
+const overflowS = "99999999999999999999/0/0/0"
+
+func overflowID(arity int) string {
+	if arity == 4 {
+		return overflowS
+	}
+	return overflowE
 }
 
 var farZooms = []int64{minI, maxI, minI + 1, maxI - 1, 64, 63, 37, -2, -36, 1 << 32, -(1 << 32), 100, 255, 256, -128}
@@ -893,6 +949,14 @@ func mixIn(g *Gen, ids []string, arity int, tags *[]string, H, V int64, one func
 }
 
 // 0..3 valid IDs whose zooms are within `spread` of (H, V) (so that nothing explodes even if H, V are just outside the range)
+// list lengths: mostly 0..3, one call in eight 4..30
+func listLen(g *Gen) int {
+	if g.Chance(0.125) {
+		return 4 + g.Intn(27)
+	}
+	return g.Intn(4)
+}
+
 func idList(g *Gen, arity int, H, V int64, n int) []string {
 	cz := func(z int64) int64 {
 		if z < 0 {
@@ -940,7 +1004,7 @@ func storedVal(lon, lat, alt float64) w.Val {
 
 func genPoints(sid bool) genFn {
 	return func(g *Gen, mode int) ([]w.Val, []string) {
-		n := g.Intn(4)
+		n := listLen(g)
 		pts := make(w.List, 0, n+1)
 		for i := 0; i < n; i++ {
 			pts = append(pts, storedVal(nearZoomPoint(g)))
@@ -952,7 +1016,7 @@ func genPoints(sid bool) genFn {
 			pts = append(pts[:i], append(w.List{w.Nil{}}, pts[i:]...)...)
 			tags = append(tags, Tag("nil-at=%d/%d", i, len(pts)))
 		}
-		switch mode % 6 {
+		switch mode % 7 {
 		case 0:
 			tags = append(tags, "valid")
 		case 1:
@@ -973,6 +1037,13 @@ func genPoints(sid bool) genFn {
 		case 5:
 			nilAt()
 			nilAt()
+		case 6:
+			nilAt()
+			v = badZoom(g)
+			if sid {
+				h = v
+			}
+			tags = append(tags, "bad-vzoom")
 		}
 		if sid {
 			return []w.Val{pts, w.I(h)}, tags
@@ -1077,7 +1148,7 @@ func genPointOn(arity int) genFn {
 func genNotation(arity int) genFn {
 	return func(g *Gen, mode int) ([]w.Val, []string) {
 		z := g.Zoom()
-		ids := idList(g, arity, z, z, g.Intn(4))
+		ids := idList(g, arity, z, z, listLen(g))
 		tags := []string{}
 		if mode%3 == 0 {
 			tags = append(tags, "valid")
@@ -1123,7 +1194,7 @@ func genChange(arity int, merge bool) genFn {
 		}
 		n := g.Intn(4)
 		tags := []string{}
-		m := mode % 5
+		m := mode % 6
 		switch m {
 		case 1, 4:
 			H = badZoom(g)
@@ -1131,27 +1202,41 @@ func genChange(arity int, merge bool) genFn {
 				V = H
 			}
 			tags = append(tags, "bad-hzoom")
-		case 2:
+		case 2, 5:
 			V = badZoom(g)
 			if arity == 4 {
 				H = V
 			}
 			tags = append(tags, "bad-vzoom")
 		}
-		ids := idList(g, arity, H, V, n)
 		cost := costChange
 		if merge {
 			cost = costMerge
 		}
-		if m == 3 || m == 4 {
+		ids := idList(g, arity, H, V, n)
+		if g.Chance(0.125) {
+			ids = idList(g, arity, H, V, 4+g.Intn(27))
+		}
+		for len(ids) > 0 && near(H) && near(V) && cost(ids, arity, H, V) > cap_/2 {
+			ids = ids[:len(ids)/2]
+		}
+		if m == 3 || m == 4 || m == 5 {
 			ids = mixIn(g, ids, arity, &tags, H, V, func(x string) float64 { return cost(append([]string{x}, ids...), arity, H, V) })
 		}
 		if m == 0 {
 			tags = append(tags, "valid")
 		}
-		if cost(ids, arity, H, V) > cap_ { // far-away zoom: nothing that could be read as an ID may be in the list
-			ids = []string{}
-			tags = append(tags, "empty-list")
+		if cost(ids, arity, H, V) > cap_ { // far-away zoom: nothing that could be enumerated may be in the list
+			if g.Chance(0.5) {
+				ids = []string{}
+				tags = append(tags, "empty-list")
+			} else {
+				ids = []string{overflowID(arity)}
+				if g.Chance(0.5) {
+					ids = append(ids, overflowID(arity))
+				}
+				tags = append(tags, "far-zoom-overflow-member")
+			}
 		}
 		if arity == 4 {
 			return []w.Val{w.Strs(ids), w.I(H)}, tags
@@ -1184,8 +1269,16 @@ func genN(g *Gen, mode int) ([]w.Val, []string) {
 	z := g.Zoom()
 	ids := idList(g, 5, z, g.Zoom(), g.Intn(4))
 	H, V := g.Int63n(3), g.Int63n(3)
+	if g.Chance(0.1) { // longer lists with one layer at most
+		ids = idList(g, 5, z, g.Zoom(), 4+g.Intn(27))
+		H, V = g.Int63n(2), g.Int63n(2)
+	}
 	tags := []string{}
-	switch mode % 5 {
+	switch mode % 6 {
+	case 5:
+		ids = mixIn(g, ids, 5, &tags, z, z, nil)
+		V = g.Pick(-1, minI)
+		tags = append(tags, "negative-vlayers")
 	case 0:
 		tags = append(tags, "valid")
 	case 1:
@@ -1337,7 +1430,11 @@ func genE2Q(arity int) genFn {
 			ov = badZoom(g)
 			tags = append(tags, "bad-vzoom")
 		}
-		ids := idList(g, arity, oh, ov, g.Intn(4))
+		ids := idList(g, arity, oh, ov, listLen(g))
+		bits := m != 0 && m != 4 && g.Chance(0.25)
+		if bits && (m == 3 || m == 5) {
+			ids = []string{}
+		}
 		switch m {
 		case 0:
 			tags = append(tags, "valid")
@@ -1348,8 +1445,21 @@ func genE2Q(arity int) genFn {
 			tags = append(tags, "inverted-heights")
 		}
 		if costChange(ids, arity, oh, ov) > cap_ {
-			ids = []string{}
-			tags = append(tags, "empty-list")
+			if g.Chance(0.5) {
+				ids = []string{}
+				tags = append(tags, "empty-list")
+			} else {
+				ids = []string{overflowID(arity)}
+				tags = append(tags, "far-zoom-overflow-member")
+			}
+		}
+		if m == 3 && len(ids) == 0 {
+			bits = false // nothing invalid is left in the call
+		}
+		if bits { // height-range (bit) form: only with an invalid zoom or ID, and nothing valid ahead of the refusal
+			mn = -float64(int64(1) << 25)
+			mx = float64(int64(1) << 25)
+			tags = append(tags, "bit-form")
 		}
 		return []w.Val{w.Strs(ids), w.I(oh), w.I(ov), w.F(mx), w.F(mn)}, tags
 	}
@@ -1367,7 +1477,7 @@ func genE2QA(g *Gen, mode int) ([]w.Val, []string) {
 		oa = badZoom(g)
 		tags = append(tags, "bad-altitudekey-zoom")
 	}
-	ids := idList(g, 5, oq, oa, g.Intn(4))
+	ids := idList(g, 5, oq, oa, listLen(g))
 	switch m {
 	case 0:
 		tags = append(tags, "valid")
@@ -1466,6 +1576,17 @@ func genQ2E(sid bool) genFn {
 		if costItems(items, oh, ov) > cap_ {
 			items = nil
 			tags = append(tags, "empty-list")
+		}
+		if (m == 1 || m == 2 || m == 4 || m == 5) && g.Chance(0.25) { // height-range (bit) form, only next to an invalid zoom
+			for i := range items {
+				items[i].mx, items[i].mn = float64(int64(1)<<25), -float64(int64(1)<<25)
+				if items[i].vi < 0 {
+					items[i].vi = -items[i].vi - 1
+				}
+			}
+			if len(items) > 0 {
+				tags = append(tags, "bit-form")
+			}
 		}
 		l := make(w.List, 0, len(items))
 		for _, it := range items {
@@ -1621,9 +1742,9 @@ func genCorridor(g *Gen, mode int) ([]w.Val, []string) {
 	}
 	skip := g.Chance(0.5)
 	tags := []string{}
-	m := mode % 7
+	m := mode % 9
 	switch m {
-	case 1:
+	case 1, 7, 8:
 		h = badZoom(g)
 		tags = append(tags, "bad-hzoom")
 	case 2:
@@ -1631,6 +1752,14 @@ func genCorridor(g *Gen, mode int) ([]w.Val, []string) {
 		tags = append(tags, "bad-vzoom")
 	}
 	s, e := segment(g, h, v)
+	switch m {
+	case 7:
+		r = badRadii[g.Intn(len(badRadii))]
+		tags = append(tags, "negative-radius")
+	case 8:
+		e = w.Nil{}
+		tags = append(tags, "nil-end")
+	}
 	switch m {
 	case 0:
 		tags = append(tags, "valid")
@@ -1682,6 +1811,10 @@ func genNewPoint(g *Gen, mode int) ([]w.Val, []string) {
 	m := mode % 4
 	lon, lat, alt := lonFor(g, m == 1 || m == 3), latFor(g, m == 2 || m == 3), g.Alt()
 	tags := []string{[]string{"valid", "bad-lon", "bad-lat", "bad-lon-lat"}[m]}
+	if g.Chance(0.2) { // any altitude is stored as it is
+		alt = g.PickF(math.Inf(1), math.Inf(-1), 1e300, -1e300, math.MaxFloat64, -math.MaxFloat64, 5e-324, -5e-324, math.Copysign(0, -1), 1e19)
+		tags = append(tags, "extreme-altitude")
+	}
 	return []w.Val{w.F(lon), w.F(lat), w.F(alt)}, tags
 }
 func genSetLon(g *Gen, mode int) ([]w.Val, []string) {
@@ -1844,6 +1977,7 @@ func init() {
 			r.Register(mkFn(name))
 		}
 		r.Register(&run.Fn{Name: "Sequence", Invoke: callSeq})
+		MathOracles(r)
 		if n == 0 {
 			return
 		}
